@@ -95,7 +95,7 @@ class H:
                  bounds='', stubs=(), assumptions=(), out_of_claim='', samples=(), native=True, sanitize=True,
                  object_bits=None, backends=('cadical',), native_srcs=None, native_extra=(), tiers=('quick', 'thorough'),
                  include_src=(), irc_extra_cc=(), no_checks=False, native_cflags=(), witness_unwind=None, tv=True,
-                 native_cc_defs=(), slice_formula=False, tracked=(), allow_undef=(), native_lib=(), unwind_is_violation=False, shadow_scope=False, pregen=None):
+                 native_cc_defs=(), slice_formula=False, tracked=(), allow_undef=(), native_lib=(), unwind_is_violation=False, shadow_scope=False, pregen=None, irc_src_flags=None):
         self.name = name; self.engine = engine; self.harness = harness
         self.repo_srcs = list(repo_srcs); self.wrapper = wrapper; self.extra = list(extra); self.models = list(models)
         self.entry = entry
@@ -120,6 +120,7 @@ class H:
         self.slice_formula = slice_formula
         self.tracked = list(tracked); self.allow_undef = list(allow_undef)
         self.unwind_is_violation = unwind_is_violation   # a loop running past the unwind bound is itself the defect (replayed under ASan)
+        self.irc_src_flags = dict(irc_src_flags or {})   # E2: extra clang flags for single repo sources (IR build only), e.g. renaming a function that a proven contract replaces
         self.pregen = pregen   # callable(wd): writes files generated from /repo's current source (e.g. a sliced function) into wd, which is on the include path
         self.shadow_scope = shadow_scope   # E1: use per-run copies of include/express/*.h in which Scope_.u is a struct (CBMC simplifier bug on unions)
         self.native_lib = list(native_lib)   # repo source dirs compiled once per run into a static archive for native builds
@@ -215,7 +216,10 @@ def build_irc_c(h, tier, wd, extra_defs):
         i, src = a
         ll = os.path.join(wd, 'u%d_%s.ll' % (i, re.sub(r'\W', '_', os.path.basename(src))))
         lang = ['-x', 'c++'] if src.endswith('.c') and False else []
-        cmd = CLANG_IR + h.cflags + defs + inc + lang + [src, '-o', ll]
+        extra = []
+        for k, fl in h.irc_src_flags.items():
+            if src == rpath(k): extra = list(fl)
+        cmd = CLANG_IR + h.cflags + defs + extra + inc + lang + [src, '-o', ll]
         if src.endswith('.c'):
             cmd = ['clang-14', c_std(), '-O1', '-fno-vectorize', '-fno-slp-vectorize', '-fno-unroll-loops', '-fno-builtin', '-w', '-S', '-emit-llvm', '-DNDEBUG'] + h.cflags + defs + repo_includes() + ['-I' + LIB] + [src, '-o', ll]
         rc, out, _, _ = run(cmd)
@@ -415,7 +419,7 @@ def native_lib_archive(dirs, sanitize, scratch):
             if sfile.endswith('.c'):
                 cmd = ['gcc', '-c', c_std(), '-DNDEBUG', '-w', '-g', '-O0'] + repo_includes() + san + [sfile, '-o', o]
             else:
-                cmd = ['g++', '-c', '-std=c++11', '-w', '-g', '-O0', '-DNDEBUG'] + repo_includes() + san + [sfile, '-o', o]
+                cmd = ['g++', '-c', '-std=c++11', '-w', '-g', '-O0', '-DNDEBUG', '-D_GLIBCXX_ASSERTIONS'] + repo_includes() + san + [sfile, '-o', o]   # libstdc++ bounds assertions: an out-of-range operator[] found by CBMC aborts natively instead of reading a neighbouring byte
             rc, out, _, _ = run(cmd)
             if rc != 0:
                 raise Fault('native library build failed on %s:\n%s' % (sfile, out[-2000:]))
@@ -448,7 +452,7 @@ def build_native_real(h, tier, wd, extra_defs, sanitize):
             objs.append(o)
         rc, out, _, _ = run(['gcc', '-no-pie', '-Wl,--unresolved-symbols=ignore-all'] + san + objs + ['-o', exe, '-lm'])
     else:
-        cxxflags = ['-std=c++11', '-w', '-g', '-O0', '-DNDEBUG'] + repo_includes() + ['-I' + LIB, '-I' + os.path.dirname(vpath(h.wrapper))] + h.native_cflags
+        cxxflags = ['-std=c++11', '-w', '-g', '-O0', '-DNDEBUG', '-D_GLIBCXX_ASSERTIONS'] + repo_includes() + ['-I' + LIB, '-I' + os.path.dirname(vpath(h.wrapper))] + h.native_cflags
         srcs = [rpath(s) for s in ((h.native_srcs if h.native_srcs is not None else h.repo_srcs) if not h.native_lib else [])] + [vpath(h.wrapper)] + [vpath(x) for x in h.native_extra]
         libs = [native_lib_archive(h.native_lib, sanitize, os.path.dirname(wd))] if h.native_lib else []
         def one(a):
